@@ -9,6 +9,7 @@ import (
 	"encoding/hex"
 	"fmt"
 	"runtime"
+	"runtime/debug"
 	"sort"
 	"strings"
 	"sync"
@@ -102,7 +103,7 @@ func c02Alphabet(pos int, full bool) []c02Item {
 	// recordCount field lies (lastOffsetDelta agrees with the body)
 	rcs := [][2]int32{{1, 0}, {1, 2}, {2, 1}, {1, -1}}
 	if !full {
-		rcs = rcs[:2]
+		rcs = rcs[:1]
 	}
 	for _, c := range rcs {
 		n := int(c[0])
@@ -124,7 +125,7 @@ func c02Alphabet(pos int, full bool) []c02Item {
 		good := int32(len(base) - 12)
 		bls := []int32{good - 1, good + 1, 0}
 		if !full {
-			bls = bls[:2]
+			bls = bls[:1]
 		}
 		for _, bl := range bls {
 			b := enum.MakeBatch(c02Recs(tag("x"), 1), enum.BatchOpts{BaseTimestamp: 1000, BatchLength: enum.I32(bl)})
@@ -175,7 +176,7 @@ type c02Hist struct {
 	Items     []string `json:"items"`      // alphabet names
 	Seps      []string `json:"seps"`       // event after each produce: none|flush|restart|flush+restart
 	StoreFail int      `json:"store_fail"` // 1-based index of the produce during which the metadata-store offset update fails (0 = none)
-	Full      bool     `json:"full_alphabet"`
+	Alpha     string   `json:"alphabet"` // mini | reduced | full
 	Hex       []string `json:"record_sets_hex,omitempty"`
 	idx       []int
 	seq       int64
@@ -467,8 +468,9 @@ func c02Run(hist *c02Hist, alpha [][]c02Item) (res c02Result) {
 		if fr.Code != 0 || !bytes.Contains(fr.Records, want) {
 			var cul *c02Acc
 			for _, m := range model {
-				if cul == nil && !m.item.wellFormed() {
-					cul = m // earliest malformed record set that was accepted
+				// earliest accepted record set whose header misstates the offsets it occupies
+				if cul == nil && (len(m.item.Phys) > 1 || int(m.item.Lod)+1 != m.item.Total) {
+					cul = m
 				}
 			}
 			readErr := ""
@@ -508,11 +510,21 @@ func TestVerifC02(t *testing.T) {
 	}
 	full := vh.Thorough()
 	maxLen := 3
-	var alphaFull, alphaRed [][]c02Item
+	var alphaFull, alphaRed, alphaMini [][]c02Item
 	for pos := 0; pos < maxLen; pos++ {
 		alphaFull = append(alphaFull, c02Alphabet(pos, true))
-		alphaRed = append(alphaRed, c02Alphabet(pos, false))
+		red := c02Alphabet(pos, false)
+		alphaRed = append(alphaRed, red)
+		var mini []c02Item
+		for _, it := range red {
+			switch it.Name {
+			case "wf1", "wf2", "lod=-1/n=1", "concat[1+1]":
+				mini = append(mini, it)
+			}
+		}
+		alphaMini = append(alphaMini, mini)
 	}
+	alphas := map[string][][]c02Item{"mini": alphaMini, "reduced": alphaRed, "full": alphaFull}
 	names := func(a []c02Item) []string {
 		var n []string
 		for _, it := range a {
@@ -522,6 +534,7 @@ func TestVerifC02(t *testing.T) {
 	}
 	rep.SetInfo("alphabet_full", names(alphaFull[0]))
 	rep.SetInfo("alphabet_reduced", names(alphaRed[0]))
+	rep.SetInfo("alphabet_mini_with_failed_store_update", names(alphaMini[0]))
 	rep.SetInfo("max_produces", maxLen)
 	rep.SetInfo("full_alphabet_depth", map[bool]int{false: 2, true: 3}[full])
 	rep.SetInfo("modes", []string{"sync", "async"})
@@ -532,9 +545,9 @@ func TestVerifC02(t *testing.T) {
 		if err != nil {
 			t.Fatalf("HARNESS-ERROR load replay: %v", err)
 		}
-		alpha := alphaRed
-		if rp.Full {
-			alpha = alphaFull
+		alpha := alphas[rp.Alpha]
+		if alpha == nil {
+			t.Fatalf("HARNESS-ERROR replay: unknown alphabet %q", rp.Alpha)
 		}
 		rp.idx = nil
 		for i, n := range rp.Items {
@@ -562,6 +575,7 @@ func TestVerifC02(t *testing.T) {
 		return
 	}
 
+	defer debug.SetGCPercent(debug.SetGCPercent(800)) // many short-lived handlers; keep the collector out of the way
 	deadline := vh.Deadline()
 	shard, nshards := vh.Shard()
 	jobs := make(chan *c02Hist, 1024)
@@ -582,10 +596,7 @@ func TestVerifC02(t *testing.T) {
 		go func() {
 			defer wg.Done()
 			for hst := range jobs {
-				alpha := alphaRed
-				if hst.Full {
-					alpha = alphaFull
-				}
+				alpha := alphas[hst.Alpha]
 				r := c02Run(hst, alpha)
 				rep.Eval(1)
 				nontriv := hst.StoreFail > 0
@@ -639,7 +650,8 @@ func TestVerifC02(t *testing.T) {
 		return true
 	}
 	// enumeration, shortest histories first, simplest alphabet elements first
-	gen := func(mode string, alpha [][]c02Item, isFull bool, n int, storeFails []int) bool {
+	gen := func(mode string, alphaName string, n int, storeFails []int) bool {
+		alpha := alphas[alphaName]
 		seps := c02Seps(mode)
 		dims := make([]int, 0, 2*n)
 		for i := 0; i < n; i++ {
@@ -654,7 +666,7 @@ func TestVerifC02(t *testing.T) {
 				continue
 			}
 			enum.Product(dims, func(idx []int) bool {
-				hst := &c02Hist{Mode: mode, StoreFail: sf, Full: isFull}
+				hst := &c02Hist{Mode: mode, StoreFail: sf, Alpha: alphaName}
 				hst.idx = append([]int(nil), idx[:n]...)
 				for i := 0; i < n; i++ {
 					hst.Items = append(hst.Items, alpha[i][idx[i]].Name)
@@ -680,17 +692,19 @@ func TestVerifC02(t *testing.T) {
 		defer close(jobs)
 		for n := 1; n <= maxLen; n++ {
 			for _, mode := range []string{"sync", "async"} {
-				// reduced alphabet at every depth, with and without one failed store update (sync only:
-				// in async mode the update happens at the explicit flush, covered by restart events)
-				sfs := []int{0}
-				if mode == "sync" {
-					sfs = []int{0, 1, 2, 3}
-				}
-				if !gen(mode, alphaRed, false, n, sfs) {
+				// reduced alphabet at every depth
+				if !gen(mode, "reduced", n, []int{0}) {
 					return
 				}
+				// one failed metadata-store offset update (store lags S3, restart resumes from the
+				// last segment): mini alphabet, sync mode (in async mode no update happens at produce)
+				if mode == "sync" {
+					if !gen(mode, "mini", n, []int{1, 2, 3}) {
+						return
+					}
+				}
 				if n <= fullDepth {
-					if !gen(mode, alphaFull, true, n, []int{0}) {
+					if !gen(mode, "full", n, []int{0}) {
 						return
 					}
 				}
@@ -714,10 +728,7 @@ func TestVerifC02(t *testing.T) {
 		rep.Count("violating_histories_"+k, counts[k])
 		for _, f := range best[k] {
 			h := *f.hist
-			alpha := alphaRed
-			if h.Full {
-				alpha = alphaFull
-			}
+			alpha := alphas[h.Alpha]
 			for i, ix := range h.idx {
 				h.Hex = append(h.Hex, hex.EncodeToString(alpha[i][ix].Bytes))
 			}
